@@ -1256,17 +1256,17 @@ static ares_status_t
   }
 
 done:
-  if (status != ARES_SUCCESS) {
+  if (status != ARES_SUCCESS || bin == NULL) {
+    /* On failure, or when the caller only wanted to skip over the string,
+     * there is nothing to hand back */
     ares_buf_destroy(binbuf);
   } else {
-    if (bin != NULL) {
-      size_t mylen = 0;
-      /* NOTE: we use ares_buf_finish_str() here as we guarantee NULL
-       *       Termination even though we are technically returning binary data.
-       */
-      *bin     = (unsigned char *)ares_buf_finish_str(binbuf, &mylen);
-      *bin_len = mylen;
-    }
+    size_t mylen = 0;
+    /* NOTE: we use ares_buf_finish_str() here as we guarantee NULL
+     *       Termination even though we are technically returning binary data.
+     */
+    *bin     = (unsigned char *)ares_buf_finish_str(binbuf, &mylen);
+    *bin_len = mylen;
   }
 
   return status;
